@@ -49,12 +49,15 @@ EligI(c) == {i \in 0..(Len(times) - 1) : /\ clu[i + 1] = c
                                          /\ (useChunks => InChunksI(ChunksKeptOf(bounds, nkept), times[i + 1]))
                                          /\ (subset # {NONE} => i \in subset)}
 ReqSet == SeqSet(req)
+\* what one requested cluster may contribute: all its eligible spikes, or ANY nreq of them (the random draw)
+OptionsI(c) == IF nreq > 0 /\ Cardinality(EligI(c)) > nreq
+               THEN {s \in SUBSET EligI(c) : Cardinality(s) = nreq} ELSE {EligI(c)}
+\* the loop over the requested clusters: every combination of per-cluster contributions, united
+RECURSIVE UnionsOver(_)
+UnionsOver(C) == IF C = {} THEN {{}}
+                 ELSE LET c == CHOOSE x \in C : TRUE IN {a \cup b : a \in OptionsI(c), b \in UnionsOver(C \ {c})}
 Call == /\ pc = "call"
-        /\ \E choice \in [ReqSet -> SUBSET (0..(Len(times) - 1))] :
-              /\ \A c \in ReqSet : IF nreq > 0 /\ Cardinality(EligI(c)) > nreq
-                                   THEN choice[c] \subseteq EligI(c) /\ Cardinality(choice[c]) = nreq
-                                   ELSE choice[c] = EligI(c)
-              /\ result' = SortSet(UNION {choice[c] : c \in ReqSet})
+        /\ \E u \in UnionsOver(ReqSet) : result' = SortSet(u)
         /\ pc' = "done" /\ UNCHANGED <<times, clu, bounds, nkept, nreq, req, useChunks, subset>>
 Next == Pick \/ Pick2 \/ Call
 Spec == Init /\ [][Next]_vars
@@ -92,11 +95,7 @@ ResultOk == pc = "done" => /\ StrictlyIncreasing(result)
 \* completeness of the I-layer: every selection the statement allows is an outcome of Call
 AllowedP == {S \in SUBSET (0..(Len(times) - 1)) :
                ValidSelOf(S, times, clu, req, nreq, useChunks, subset, ChunksKeptOf(bounds, nkept))}
-AllowedI == {UNION {choice[c] : c \in ReqSet} :
-               choice \in {ch \in [ReqSet -> SUBSET (0..(Len(times) - 1))] :
-                  \A c \in ReqSet : IF nreq > 0 /\ Cardinality(EligI(c)) > nreq
-                                    THEN ch[c] \subseteq EligI(c) /\ Cardinality(ch[c]) = nreq
-                                    ELSE ch[c] = EligI(c)}}
+AllowedI == UnionsOver(ReqSet)
 Complete == pc = "call" => AllowedP = AllowedI
 
 \* ---------------------------------------------------------------------------- G
